@@ -1142,7 +1142,50 @@ def run(ctx, big=False):
     if not ctx.search_mode:
         correspondence(ctx, res, TRACE_RECORDS)
         schedule_correspondence(ctx, res, 500 if (ctx.quick and not big) else 5000)
+        reference_correspondence(ctx, res, 300 if (ctx.quick and not big) else 3000)
     return res
+
+
+def reference_correspondence(ctx, res, n):
+    """The reference dictionary that decides the linearizability verdicts (RefCache above, written from the property text)
+    against the machine of coq/model/Conc.v + Txn.v run with ONE client (ConcRun.seq_check): same outcomes for every call of
+    random sequential programs (set/add/incr/decr/get/pop/delete/touch/contains with ttl None, +100 s, 0 and -1 s; inline and
+    file-backed values)."""
+    import schedcorr
+    rng = ctx.rng
+    terms, progs = [], []
+    ops = {}
+    while len(terms) < n:
+        prog = []
+        for j in range(rng.randrange(4, 13)):
+            c = gen_call(rng, 'r%d' % j, keys=('a', 'b', 'c'))
+            c.pop('tag', None)
+            c.pop('meta', None)
+            if c['op'] in schedcorr.OPS:
+                prog.append(c)
+        prog += [{'op': 'get', 'key': k} for k in ('a', 'b', 'c')]
+        ref = RefCache()
+        seen = []
+        for c in prog:
+            ops[c['op']] = ops.get(c['op'], 0) + 1
+            kind, r = ref_result(ref, c)
+            rec = {'op': c['op'], 'call': c}
+            if kind == 'exc':
+                rec['exc'] = r
+            else:
+                rec['result'] = r
+            seen.append(schedcorr.seen_term(rec))
+        terms.append('seq_check %s %s %s' % (schedcorr.cfg_term(SETTINGS), fw.clist([schedcorr.call_term(c, NOW) for c in prog]), fw.clist(seen)))
+        progs.append(prog)
+    codes, errors = schedcorr.evaluate('c05ref', terms)
+    for e in errors[:2]:
+        res.disagreements.append(fw.Violation('model-eval', 'reference correspondence could not be evaluated: ' + e[-300:], {}, 'correspondence'))
+    bad = [i for i, c in enumerate(codes) if c != -1]
+    res.traces_validated += len(terms) - len(bad)
+    res.extra['reference_correspondence'] = {'programs': len(terms), 'agree': len(terms) - len(bad), 'op_histogram': ops}
+    for i in bad[:3]:
+        res.disagreements.append(fw.Violation('reference_correspondence', 'the reference dictionary and the machine run with one client give different outcomes '
+                                              '(code %r) for %s' % (codes[i], progs[i]), {'check': 'reference', 'program': progs[i], 'code': codes[i]}, 'correspondence'))
 
 
 def schedule_correspondence(ctx, res, n, kind_filter=None):
